@@ -27,9 +27,9 @@ REPS = {
     "s2P53": [str(2**53), str(-2**53)], "sHUGE": [str(10**30)],
     "sEMPTY": [""], "sBLANK": [" ", "\t "], "sTXT": ["abc", "null"], "sUNI": ["é☃", "a\"b\\c"],
     "sTRUE": ["true"], "sFALSE": ["false"], "sNONFIN": ["nan", "inf", "-Infinity", "1e999", " inf "],
-    "dDate": [datetime(2020, 1, 31), datetime(1999, 12, 1)], "sDate": ["2020-01-31", "1999-12-01"],
+    "dDate": [datetime(2020, 1, 31), datetime(1999, 12, 1), datetime(999, 12, 31), datetime(1, 1, 1)], "sDate": ["2020-01-31", "1999-12-01", "0999-12-31", "0001-01-01"],
     "dTime": [datetime(1900, 1, 1, 10, 20, 30), datetime(1900, 1, 1, 0, 0, 1)], "sTime": ["10:20:30", "00:00:01"],
-    "dDateTime": [datetime(2020, 1, 31, 10, 20, 30), datetime(1999, 12, 1, 23, 59, 59)], "sDateTime": ["2020-01-31T10:20:30", "1999-12-01T23:59:59"],
+    "dDateTime": [datetime(2020, 1, 31, 10, 20, 30), datetime(1999, 12, 1, 23, 59, 59), datetime(999, 12, 31, 1, 2, 3)], "sDateTime": ["2020-01-31T10:20:30", "1999-12-01T23:59:59", "0999-12-31T01:02:03"],
     "sDATEBAD": ["2020-13-45", "25:61:61", "2020-01-31 10:20:30"],
     "LIST": [[1], []], "DICT": [{"a": 1}], "BYTES": [b"x"], "TUPLE": [(1,)], "SET": [{1}], "OBJ": [Attrs()], "EXC": [ValueError("x")],
 }
